@@ -70,7 +70,7 @@ def paste_eligibility(prog: Program) -> List[Instance]:
                 for e, p in cs
             ),
             "whole-pixel-translation": any(
-                p and isinstance(e, ast.Call) and call_name(e) == "all" and has_call(e, "is_almost_int", lambda c: _arg_is(c, 1, "tol", "ttol")) and {"tx", "ty"} <= names_in(e)
+                p and isinstance(e, ast.Call) and call_name(e) == "all" and has_call(e, "is_almost_int", lambda c: _arg_is(c, 1, "tol", "ttol")) and _slot_names(cp, (2, 5)) <= names_in(e)
                 for e, p in cs
             ),
         }
@@ -83,7 +83,7 @@ def paste_eligibility(prog: Program) -> List[Instance]:
     for n in walk_own(cp.node):
         if isinstance(n, ast.If) and isinstance(n.test, ast.Call) and call_name(n.test) == "any" and "stol" in names_in(n.test):
             gen = n.test.args[0] if n.test.args else None
-            both = isinstance(gen, ast.GeneratorExp) and isinstance(gen.generators[0].iter, (ast.Tuple, ast.List)) and {short(x) for x in gen.generators[0].iter.elts} == {"sx", "sy"}
+            both = isinstance(gen, ast.GeneratorExp) and isinstance(gen.generators[0].iter, (ast.Tuple, ast.List)) and {short(x) for x in gen.generators[0].iter.elts} == _slot_names(cp, (0, 4))
             cmp_ok = isinstance(gen, ast.GeneratorExp) and isinstance(gen.elt, ast.Compare) and isinstance(gen.elt.ops[0], (ast.Gt, ast.GtE)) and short(gen.elt.comparators[0]) == "stol"
             out.append(Instance("R-GUARDSEQ", f"{cp.qual}#paste:unit-scale-both-axes", OK if both and cmp_ok else BAD,
                                 "unit-scale test covers sx and sy against stol" if both and cmp_ok else f"`{short(n.test)}` does not test both axes against stol", cp.where(n)))
@@ -145,16 +145,19 @@ def paste_eligibility(prog: Program) -> List[Instance]:
             out.append(Instance("R-GUARDSEQ", f"{crr.qual}#paste:tight_ok", OK if ok else BAD,
                                 "exact paste only when neither padding nor alignment was requested" if ok else f"`{short(n)}` no longer requires both align and padding to be unset", crr.where(n)))
     # shrink>1: source region is overview region scaled by the same read_shrink used for zoom and snapping
+    rs_name = None
+    for r in rets:
+        kv = next((k.value for k in r.value.keywords if k.arg == "read_shrink"), None)
+        if isinstance(kv, ast.Name):
+            rs_name = kv.id
     rs_uses = []
     for n in walk_own(crr.node):
         if isinstance(n, ast.Call) and call_name(n) in ("zoom_out", "scaled_up_roi", "scale"):
-            if "read_shrink" in names_in(n):
+            if rs_name is not None and rs_name in names_in(n):
                 rs_uses.append(call_name(n))
     ok = {"zoom_out", "scaled_up_roi", "scale"} <= set(rs_uses)
-    rdefs = [d for d in rd.all_defs("read_shrink")]
-    single = len([d for d in rdefs if d[2] is not None and "linear" != ""]) >= 1
     out.append(Instance("R-GUARDSEQ", f"{crr.qual}#paste:one-shrink-factor", OK if ok else BAD,
-                        "zoom_out, Affine.scale(1/.) and scaled_up_roi all use read_shrink" if ok else f"read_shrink is not used consistently for overview geobox, affine and region scale-up (uses: {rs_uses})", crr.where()))
+                        "the reported read_shrink is the factor used by zoom_out, Affine.scale(1/.) and scaled_up_roi" if ok else f"the reported read_shrink is not the one factor used for overview geobox, affine and region scale-up (used by: {rs_uses})", crr.where()))
     return out
 
 
@@ -212,13 +215,28 @@ def grid_compat(prog: Program) -> List[Instance]:
         ok = any(p and has_call(e, "is_almost_int", lambda c: c.args and short(c.args[0]) == arg and _arg_is(c, 1, "tol", "tol")) for e, p in cs)
         out.append(Instance("R-GUARDSEQ", f"{bb.qual}#grid:round:{arg}", OK if ok else BAD,
                             f"round({arg}) only after is_almost_int({arg}, tol) held" if ok else f"round({arg}) without the near-integer guard on {arg}: sub-pixel shifted grids are silently snapped", bb.where(n)))
-    # result box:  (tx, ty, tx + nx, ty + ny)
+    # result box: (a, b, a + w, b + h) - the far corner is the near corner plus the shape
     for r in (n for n in walk_own(bb.node) if isinstance(n, ast.Return) and isinstance(n.value, ast.Call) and call_name(n.value) == "BoundingBox"):
-        a = [short(x) for x in r.value.args[:4]]
-        ok = len(a) == 4 and a[0] == "tx" and a[1] == "ty" and set(a[2].replace(" ", "").split("+")) == {"tx", "nx"} and set(a[3].replace(" ", "").split("+")) == {"ty", "ny"}
+        a = r.value.args[:4]
+        ok = len(a) == 4 and all(isinstance(x, ast.Name) for x in a[:2])
+        if ok:
+            for near, far in ((a[0], a[2]), (a[1], a[3])):
+                ok = ok and isinstance(far, ast.BinOp) and isinstance(far.op, ast.Add) and near.id in {short(far.left), short(far.right)}
+            ok = ok and a[0].id != a[1].id
         out.append(Instance("R-GUARDSEQ", f"{bb.qual}#grid:box", OK if ok else BAD,
-                            "pixel-domain box is (tx, ty, tx+nx, ty+ny)" if ok else f"pixel-domain box is `{short(r.value)}`", bb.where(r)))
+                            "pixel-domain box is (tx, ty, tx + width, ty + height)" if ok else f"pixel-domain box `{short(r.value)}` is not (near corner, near corner + shape)", bb.where(r)))
     return out
+
+
+def _slot_names(fi: FuncInfo, slots: Tuple[int, ...]) -> Set[str]:
+    """Names bound to the given Affine slots by the *last* six-component unpack in the function."""
+    last: Dict[int, str] = {}
+    for n in walk_own(fi.node):
+        if isinstance(n, ast.Assign) and isinstance(n.targets[0], ast.Tuple) and len(n.targets[0].elts) >= 6:
+            for i, e in enumerate(n.targets[0].elts[:6]):
+                if isinstance(e, ast.Name):
+                    last[i] = e.id
+    return {last[i] for i in slots if i in last}
 
 
 def _affine_unpack_slots(fi: FuncInfo) -> Dict[str, int]:
@@ -284,65 +302,79 @@ def to_crs_preconditions(prog: Program) -> List[Instance]:
 
 def finite_filter(prog: Program) -> List[Instance]:
     """C17/C03: roi_from_points filters non-finite points and handles the empty case before min/max."""
+    from .axis import AxisTyper, Beliefs
+
     out: List[Instance] = []
     f = prog.func("roi:roi_from_points")
-    cond = Conditions(f.body)
-    # statements computing the envelope: calls .min( / .max(
-    env = [n for n in walk_own(f.node) if isinstance(n, ast.Call) and isinstance(n.func, ast.Attribute) and n.func.attr in ("min", "max") and "xy" in short(n.func.value)]
+    pts = f.param_names()[0]
+    org = Origins(f)
+    body = f.node.body
+
+    def top_index(node: ast.AST) -> int:
+        from ..loader import parent as _p
+
+        st = node
+        while _p(st) is not f.node and _p(st) is not None:
+            st = _p(st)
+        return body.index(st) if st in body else -1
+
+    env = [n for n in walk_own(f.node) if isinstance(n, ast.Call) and isinstance(n.func, ast.Attribute) and n.func.attr in ("min", "max") and pts in names_in(n.func.value)]
     if not env:
         return [Instance("R-GUARDSEQ", f"{f.qual}#finite:envelope", UNDET, "min/max of the point cloud not found", f.where())]
-    # (1) an isfinite mask is computed and applied before
-    fin_assign = None
-    applied = None
-    for st in f.node.body:
-        for n in ast.walk(st):
-            if isinstance(n, ast.Call) and call_name(n) == "isfinite":
-                fin_assign = fin_assign or st
-        if isinstance(st, ast.If) and fin_assign is not None and applied is None:
-            for n in ast.walk(st):
-                if isinstance(n, ast.Assign) and any(isinstance(t, ast.Name) and t.id == "xy" for t in n.targets) and isinstance(n.value, ast.Subscript):
-                    applied = st
-    first_env = enclosing_stmt(env[0])
-    body = f.node.body
-    def idx(st):
-        top = st
-        from ..loader import parent as _p
-        while _p(top) is not f.node and _p(top) is not None:
-            top = _p(top)
-        return body.index(top) if top in body else -1
-    ok = fin_assign is not None and applied is not None and idx(applied) < idx(first_env)
-    out.append(Instance("R-GUARDSEQ", f"{f.qual}#finite:filter-before-envelope", OK if ok else BAD,
-                        "non-finite points are masked out before the envelope is taken" if ok else "envelope (min/max) is computed without first removing non-finite points: one NaN/inf poisons the region", f.where(first_env)))
-    # mask must require both coordinates finite (product / and of both columns)
-    if applied is not None:
-        keep = [n for n in ast.walk(applied) if isinstance(n, ast.Assign) and any(isinstance(t, ast.Name) and t.id == "keep" for t in n.targets)]
-        if keep:
-            v = keep[0].value
-            both = isinstance(v, ast.BinOp) and isinstance(v.op, (ast.Mult, ast.BitAnd)) and "[0]" in short(v.left) + short(v.right) and "[1]" in short(v.left) + short(v.right)
-            out.append(Instance("R-GUARDSEQ", f"{f.qual}#finite:both-coordinates", OK if both else BAD,
-                                "a point is kept only if both coordinates are finite" if both else f"`{short(keep[0])}` does not require both coordinates to be finite", f.where(keep[0])))
-    # (2) empty case returns the empty ROI before the envelope
-    empties = []
+    first_env = min(top_index(e) for e in env)
+    # (1) the points are re-bound to a selection by a mask that derives from isfinite(points)
+    rebinding = None
+    mask_expr = None
     for n in walk_own(f.node):
-        if isinstance(n, ast.If) and isinstance(n.test, ast.Compare) and "shape[0]" in short(n.test) and const_num(n.test.comparators[0]) == 0:
-            empties.append(n)
-    ok = bool(empties) and idx(empties[0]) < idx(first_env) and any(isinstance(s, ast.Return) for s in empties[0].body)
-    if ok:
-        r = [s for s in empties[0].body if isinstance(s, ast.Return)][0]
-        txt = short(r.value).replace(" ", "")
-        ok = "0:0" in txt or "slice(0,0)" in txt
+        if isinstance(n, ast.Assign) and isinstance(n.targets[0], ast.Name) and n.targets[0].id == pts and isinstance(n.value, ast.Subscript) and pts in names_in(n.value.value):
+            sl = n.value.slice
+            first = sl.elts[0] if isinstance(sl, ast.Tuple) and sl.elts else sl
+            deps_txt = " ".join(short(v) for nm in org.deps_names(first) for _, v in org.defs.get(nm, []))
+            if "isfinite" in deps_txt or "isfinite" in short(first):
+                rebinding = n
+                mask_expr = first
+    ok = rebinding is not None and top_index(rebinding) < first_env
+    out.append(Instance("R-GUARDSEQ", f"{f.qual}#finite:filter-before-envelope", OK if ok else BAD,
+                        "non-finite points are masked out before the envelope is taken" if ok else "envelope (min/max) is computed without first removing non-finite points: one NaN/inf poisons the region", f.where()))
+    # mask must combine both coordinate columns (product / and / all over axis 1)
+    if mask_expr is not None:
+        exprs = [mask_expr] + [v for nm in org.deps_names(mask_expr) for _, v in org.defs.get(nm, [])]
+        both = False
+        for v in exprs:
+            for x in ast.walk(v):
+                if isinstance(x, ast.BinOp) and isinstance(x.op, (ast.Mult, ast.BitAnd)):
+                    idx = {const_num(y.slice) for y in ast.walk(x) if isinstance(y, ast.Subscript)}
+                    if {0, 1} <= idx:
+                        both = True
+                if isinstance(x, ast.Call) and call_name(x) == "all" and any(k.arg == "axis" for k in x.keywords):
+                    both = True
+        out.append(Instance("R-GUARDSEQ", f"{f.qual}#finite:both-coordinates", OK if both else BAD,
+                            "a point is kept only if both coordinates are finite" if both else "the finite mask does not require both coordinates of a point to be finite", f.where(rebinding)))
+    # (2) empty case returns the empty ROI before the envelope
+    ok = False
+    for n in body[:first_env]:
+        if isinstance(n, ast.If) and isinstance(n.test, ast.Compare) and pts in names_in(n.test) and const_num(n.test.comparators[0]) == 0 and isinstance(n.test.ops[0], (ast.Eq, ast.LtE, ast.Lt)):
+            r = [x for x in n.body if isinstance(x, ast.Return)]
+            if r:
+                sl = [x for x in ast.walk(r[0]) if isinstance(x, ast.Slice) or (isinstance(x, ast.Call) and call_name(x) == "slice")]
+                ok = len(sl) >= 2 and all(
+                    (isinstance(x, ast.Slice) and const_num(x.lower) == const_num(x.upper)) or (isinstance(x, ast.Call) and len(x.args) == 2 and const_num(x.args[0]) == const_num(x.args[1]))
+                    for x in sl
+                )
     out.append(Instance("R-GUARDSEQ", f"{f.qual}#finite:empty-first", OK if ok else BAD,
-                        "no finite point left => empty ROI returned before min/max" if ok else "the no-points case does not return the empty ROI before the envelope is computed", f.where(first_env)))
-    # (3) result is clipped to the image: xx with nx, yy with ny
-    clips = [n for n in walk_own(f.node) if isinstance(n, ast.Call) and call_name(n) == "clip" and len(n.args) >= 3 and isinstance(enclosing_stmt(n), ast.Assign)]
-    seen = {}
-    for c in clips:
-        a0, lo, hi = short(c.args[0]), const_num(c.args[1]), short(c.args[2])
-        if a0 in ("xx", "yy"):
-            seen[a0] = (lo, hi)
-    ok = seen.get("xx") == (0, "nx") and seen.get("yy") == (0, "ny")
+                        "no finite point left => empty ROI returned before min/max" if ok else "the no-points case does not return an empty ROI before the envelope is computed", f.where()))
+    # (3) result is clipped to the image: the x range with the x extent, the y range with the y extent
+    ty = AxisTyper(f, Beliefs(f), prog)
+    seen = []
+    for c in (n for n in walk_own(f.node) if isinstance(n, ast.Call) and call_name(n) == "clip" and len(n.args) >= 3):
+        st = enclosing_stmt(c)
+        if top_index(c) <= max(top_index(e) for e in env):
+            continue  # the pre-cast clamp, not the final clip
+        t0, thi = ty.tag(c.args[0]), ty.tag(c.args[2])
+        seen.append((short(c.args[0]), const_num(c.args[1]), short(c.args[2]), t0, thi))
+    ok = len(seen) == 2 and all(lo == 0 and t0 is not None and t0 == thi for _, lo, _, t0, thi in seen) and {t0 for *_, t0, _ in seen} == {"X", "Y"}
     out.append(Instance("R-GUARDSEQ", f"{f.qual}#finite:clip-to-image", OK if ok else BAD,
-                        "x range clipped to [0, nx], y range to [0, ny]" if ok else f"final clip is {seen}: region can leave the image or axes are mixed", f.where()))
+                        "x range clipped to [0, width], y range to [0, height]" if ok else f"final clip is {[(a, lo, hi) for a, lo, hi, *_ in seen]}: region can leave the image or axes are mixed", f.where()))
     return out
 
 
@@ -503,6 +535,16 @@ def nonfinite_first(prog: Program) -> List[Instance]:
     return out
 
 
+def _is_crs_pair(f: FuncInfo, e: ast.Compare) -> bool:
+    """Compare of the source geobox's CRS with the CRS resolved for the request."""
+    org = Origins(f)
+    pp = f.param_names()
+    l, r = e.left, e.comparators[0]
+    dl, dr = org.deps_names(l), org.deps_names(r)
+    txt = short(l).lower() + short(r).lower()
+    return "crs" in txt and ((pp[0] in dl and pp[1] in dr) or (pp[0] in dr and pp[1] in dl))
+
+
 def identity_shortcircuit(prog: Program) -> List[Instance]:
     """C11: compute_output_geobox returns the source geobox only under all five conditions."""
     out: List[Instance] = []
@@ -515,7 +557,7 @@ def identity_shortcircuit(prog: Program) -> List[Instance]:
     for r in rets:
         cs = conds_at(cond, r)
         checks = {
-            "same-crs": any(p and isinstance(e, ast.Compare) and isinstance(e.ops[0], ast.Eq) and {"dst_crs", "src_crs"} <= names_in(e) for e, p in cs),
+            "same-crs": any(p and isinstance(e, ast.Compare) and isinstance(e.ops[0], ast.Eq) and _is_crs_pair(f, e) for e, p in cs),
             "resolution-auto-or-same": any(p and isinstance(e, ast.Compare) and isinstance(e.ops[0], ast.In) and "resolution" in names_in(e) and {"auto", "same"} == {x.value for x in ast.walk(e.comparators[0]) if isinstance(x, ast.Constant)} for e, p in cs),
             "no-shape": any(p and isinstance(e, ast.Compare) and isinstance(e.ops[0], ast.Is) and short(e.left) == "shape" for e, p in cs),
             "default-anchor": any(p and isinstance(e, ast.Compare) and isinstance(e.ops[0], ast.Eq) and "anchor" in names_in(e) and any(isinstance(x, ast.Constant) and x.value == "default" for x in ast.walk(e)) for e, p in cs),
